@@ -15,6 +15,10 @@
  *        in-memory table -> save_module_symbol_file -> load_module_symbol_file; find_sym on
  *        the in-memory table (bsearch on arbitrary tables)
  *   scen | <op> | <op> ...       (see lean/Driver/C10.lean; MODS carries the module path)
+ *   elf <pathhex> | <addr>...
+ *        table of a real ELF file as `uftrace record` builds it (load_module_symtab with
+ *        SYMTAB_FL_ADJ_OFFSET), find_sym at the boundaries of its symbols, save_module_symtabs,
+ *        reload of the written file
  *
  * stdout: pairs of  MODEL <query for `uvmodel C10`>  /  IMPL <result in the model's format>.
  */
@@ -306,6 +310,66 @@ static void case_sv(char **tok, int ntok)
 	free(bid);
 }
 
+static void case_elf(char **tok, int ntok)
+{
+	char *path = unhex(tok[1], NULL);
+	struct uftrace_sym_info sinfo = {
+		.dirname = dir,
+		.symdir = dir,
+		.filename = path,
+		.flags = SYMTAB_FL_ADJ_OFFSET,
+	};
+	char build_id[BUILD_ID_STR_SIZE];
+	struct uftrace_module *m;
+	struct uftrace_symtab st2;
+	uint64_t *addrs;
+	char *file = NULL, *text, *bidhex;
+	size_t len, i, step;
+	int n = 0;
+
+	clean_dir();
+	read_build_id(path, build_id, sizeof(build_id));
+	m = load_module_symtab(&sinfo, path, build_id);
+
+	addrs = xmalloc(sizeof(*addrs) * (m->symtab.nr_sym * 4 + 4 + ntok));
+	for (i = 3; i < (size_t)ntok; i++)
+		n = add_addr(addrs, n, strtoull(tok[i], NULL, 16));
+	step = m->symtab.nr_sym / 400 + 1;
+	for (i = 0; i < m->symtab.nr_sym; i += step) {
+		struct uftrace_symbol *s = &m->symtab.sym[i];
+
+		n = add_addr(addrs, n, s->addr);
+		n = add_addr(addrs, n, s->addr + s->size - 1);
+		n = add_addr(addrs, n, s->addr + s->size);
+		n = add_addr(addrs, n, s->addr - 1);
+	}
+	do_find(&m->symtab, addrs, n);
+
+	save_module_symtabs(dir);
+	xasprintf(&file, "%s/%s.sym", dir, uftrace_basename(path));
+	text = read_file(file, &len);
+	bidhex = xmalloc(2 * strlen(build_id) + 2);
+	bidhex[0] = '-';
+	bidhex[1] = 0;
+	for (i = 0; i < strlen(build_id); i++)
+		sprintf(bidhex + 2 * i, "%02x", (unsigned char)build_id[i]);
+	printf("MODEL save 0 %s %s | ", tok[1], bidhex);
+	put_table(&m->symtab);
+	printf("\nIMPL ");
+	puthex(text, len);
+	printf("\n");
+	do_load(&st2, 0, text, len);
+
+	free_table(&st2);
+	free(text);
+	free(file);
+	free(bidhex);
+	free(addrs);
+	free(path);
+	unload_module_symtabs();
+	clean_dir();
+}
+
 /* ---------- scenarios ---------- */
 
 #define MAXMOD 64
@@ -544,6 +608,8 @@ int main(int argc, char *argv[])
 			case_sv(tok, ntok);
 		else if (!strcmp(tok[0], "scen"))
 			case_scen(tok, ntok, line);
+		else if (!strcmp(tok[0], "elf") && ntok >= 2)
+			case_elf(tok, ntok);
 		else
 			printf("MODEL bad\nIMPL bad-case\n");
 		fflush(stdout);
